@@ -1118,8 +1118,8 @@ package rosmar
 //@
 //@ fn (*Bucket).nextExpiration
 //@   modular in=_scheduleExpiration
-//@   ensures [C14:nextExpiration.is-minimum] err == nil && exp != 0 ==> forall o: DocId :: docAt(o).present && docAt(o).exp > 0 ==> exp <= docAt(o).exp
-//@   ensures [C14:nextExpiration.none]       err == nil && exp == 0 ==> forall o: DocId :: !(docAt(o).present && docAt(o).exp > 0)
+//@   ensures [C10,C14:nextExpiration.is-minimum] err == nil && exp != 0 ==> forall o: DocId :: docAt(o).present && docAt(o).exp > 0 ==> exp <= docAt(o).exp
+//@   ensures [C10,C14:nextExpiration.none]       err == nil && exp == 0 ==> forall o: DocId :: !(docAt(o).present && docAt(o).exp > 0)
 //@   ensures [C14:nextExpiration.frame]      db == old(db)
 //@
 //@ fn (*Bucket).expireDocuments
